@@ -396,6 +396,28 @@ func cmdAtoms(args []string) {
 			scenarios = append(scenarios, sc)
 		}
 	}
+	// hot scenarios: six threads, eight swaps each, all on one atom (a writer is nearly always waiting for the lock)
+	for i := 0; i < 48; i++ {
+		sc := atomScenario{NAtoms: 1}
+		for t := 0; t < 6; t++ {
+			var script []atomOp
+			for k := 0; k < 8; k++ {
+				op := "swapinc"
+				if k%4 == 3 {
+					op = "deref"
+				}
+				script = append(script, atomOp{Op: op, Atom: 1, B: 1, V: 1000*(t+1) + k})
+			}
+			sc.Scripts = append(sc.Scripts, script)
+		}
+		switch i % 3 {
+		case 1:
+			sc.Style = "map"
+		case 2:
+			sc.Style = "vec"
+		}
+		scenarios = append(scenarios, sc)
+	}
 	for i := 0; i < *n; i++ {
 		sc := randomAtomScenario(rnd, *maxThreads, *maxOps)
 		if i%3 == 2 {
